@@ -53,6 +53,7 @@ type Chapter struct {
 	Title    string // <title> and <h1> ("" = neither)
 	NavLabel string // label in the NCX / nav document (default: Title, or "Chapter <k>")
 	Body     string // XHTML placed inside <body> after the <h1>
+	Head     string // raw XHTML appended inside <head> (e.g. a <link> to a Resource)
 	Raw      string // complete document, overrides Title/Body
 
 	Absent     bool   // do not write the file
